@@ -4,15 +4,116 @@ import itertools
 import random
 
 import boot  # noqa: F401
-from harness.drivers.tcpcl_world import World, EndCfg
+from gi.repository import GLib
+import dbus
+import tcpcl.session as session
+from harness.sim import net
+from harness.drivers.tcpcl_world import World, EndCfg, clampi
 from harness.indep import tcpcl_codec as codec
 
 SESS_MOVES = ['seg_nostart_unknown', 'seg_end_unknown', 'ack_unknown', 'ack_finished', 'ack_own_end', 'ack_own_mid',
               'refuse_unknown', 'refuse_sent_unacked',
               'refuse_own', 'unknown_type', 'xfer_ok', 'xfer_start', 'xfer_mismatch', 'xfer_cont_end', 'ka',
-              'reject_msg', 'term', 'term_twice', 'term_reply', 'ch_again']
+              'reject_msg', 'term', 'term_twice', 'term_reply', 'ch_again',
+              'ack_other_conn', 'ack_other_conn_end', 'refuse_other_conn']
 PRE_INIT_MOVES = ['seg', 'ack', 'refuse', 'term', 'ka', 'unknown_type', 'ack_early_own', 'refuse_early_own']
 PRE_CH_MOVES = ['bad_magic', 'bad_version', 'seg_first']
+
+
+class Bystander(object):
+    ''' Another connection of the same process (its own socket, its own co-operative peer) with transfers of its
+    own under way.  The adversary of the victim connection names this connection's transfer ids: to the victim
+    they are unknown transfers, and this connection must not notice anything. '''
+    NBUNDLES = 6
+
+    def __init__(self):
+        (self.peer_sock, self.sock) = net.socketpair(addr_a=('10.0.0.7', 41000), addr_p=('10.0.0.8', 4556),
+                                                     auto_deliver=False)
+        conf = EndCfg('dtn://bystander/', seg_mru=64, seg_init=3).to_config('bus-B')
+        self.events = []
+        self.escapes = 0
+        self.queued = []
+        self.acked = 0
+        self.cum = {}
+        chained = dbus.RECORDER.sink
+
+        def sink(ev):
+            if ev.obj is self.hdl:
+                if ev.kind == 'signal':
+                    self.events.append((ev.name, [str(a) for a in ev.args]))
+            elif chained is not None:
+                chained(ev)
+        self.hdl = None
+        dbus.RECORDER.sink = sink
+        self.hdl = session.ContactHandler(
+            hdl_kwargs=dict(config=conf, sock=self.sock, fromaddr=self.sock.getpeername()),
+            bus_kwargs=dict(conn=conf.bus_conn, object_path='/org/ietf/dtn/tcpcl/ContactB'))
+        self.hdl.start()
+        self.peer_send(codec.enc_contact(0))
+        self.run()
+        self.peer_send(codec.enc_sess_init(keepalive=0, seg_mru=2, xfer_mru=2 ** 40, node_id='dtn://other-peer/'))
+        self.run()
+        for k in range(self.NBUNDLES):
+            self.queued.append(int(self.hdl.send_bundle_data(bytes([170 + k]) * (3 + k))))
+        # the first transfers are on the wire and unacknowledged, the others wait in the queue
+        self.run(max_steps=9)
+
+    def peer_send(self, octets):
+        try:
+            self.peer_sock.send(octets)
+        except OSError:
+            return
+        self.peer_sock.deliver()
+
+    def run(self, max_steps=400):
+        ''' Run this connection's ready callbacks. '''
+        spin = 0
+        for _ in range(max_steps):
+            ready = [s for s in GLib.SCHED.sources.values() if s.name[1] is self.hdl and GLib.SCHED.ready(s)
+                     and s.kind in ('io', 'idle') and s.name[0] != '_keepalive_timeout']
+            if not ready:
+                break
+            ready.sort(key=lambda s: s.seq)
+            before = (len(self.sock.sent_log), self.sock.recv_total, len(self.events))
+            (_ran, exc) = GLib.SCHED.run(ready[spin % len(ready)])
+            if exc is not None:
+                self.escapes += 1
+            self.sock.deliver()
+            if (len(self.sock.sent_log), self.sock.recv_total, len(self.events)) == before:
+                spin += 1
+                if spin > 2 * len(ready) + 4:
+                    break
+            else:
+                spin = 0
+
+    def tx_queue(self):
+        enabled = dbus.RECORDER.enabled
+        dbus.RECORDER.enabled = False
+        try:
+            return sorted(int(x) for x in self.hdl.send_bundle_get_queue())
+        finally:
+            dbus.RECORDER.enabled = enabled
+
+    def conclude(self):
+        ''' The bystander's own peer now acknowledges everything: each of its transfers must finish well. '''
+        txq = self.tx_queue()
+        for _ in range(60):
+            self.run()
+            (msgs, _c, _s) = codec.parse_stream(bytes(self.sock.sent_log))
+            segs = [m for m in msgs if m['t'] == 'SEG']
+            if self.acked >= len(segs):
+                break
+            while self.acked < len(segs):
+                seg = segs[self.acked]
+                self.acked += 1
+                total = (0 if seg['flags'] & codec.SEG_START else self.cum.get(seg['id'], 0)) + seg['len']
+                self.cum[seg['id']] = total
+                self.peer_send(codec.enc_ack(seg['id'], total, seg['flags']))
+        fin = [{'id': clampi(int(args[0])) if args[0].isdigit() else -2, 'result': args[2]}
+               for (name, args) in self.events if name == 'send_bundle_finished' and len(args) == 3]
+        rejects = len([m for m in codec.parse_stream(bytes(self.sock.sent_log))[0] if m['t'] in ('REJECT', 'TERM')])
+        return {'queued': list(self.queued), 'txq': txq, 'fin': fin, 'esc': self.escapes, 'complaints': rejects,
+                'closed': bool(self.sock.closed)}
 
 
 class Adversary(object):
@@ -100,6 +201,13 @@ class Adversary(object):
                 self.send(codec.enc_refuse(pending[0], 1))
         elif name == 'refuse_unknown':
             self.send(codec.enc_refuse(999, 2))
+        # transfer ids of another connection of the same process (see Bystander): unknown to the victim
+        elif name == 'ack_other_conn':
+            self.send(codec.enc_ack(Bystander.NBUNDLES - 1, 1, codec.SEG_START))
+        elif name == 'ack_other_conn_end':
+            self.send(codec.enc_ack(Bystander.NBUNDLES, 3, codec.SEG_START | codec.SEG_END))
+        elif name == 'refuse_other_conn':
+            self.send(codec.enc_refuse(Bystander.NBUNDLES, 1))
         elif name == 'refuse_own':
             self.send(codec.enc_refuse(2, 4))
         elif name == 'unknown_type':
@@ -162,6 +270,7 @@ def run_script(victim, pre_ch, pre_init, sess, nown=1, seed=0, early=0):
     world = World(cfg_v if victim == 'A' else cfg_o, cfg_v if victim == 'P' else cfg_o, auto_deliver=False,
                   only=victim)
     adv = Adversary(world, victim, nown, seed)
+    other = Bystander() if any(m.endswith('other_conn') or m.endswith('other_conn_end') for m in sess) else None
     world.start(victim)
     adv.settle()
     for name in pre_ch:
@@ -192,6 +301,8 @@ def run_script(victim, pre_ch, pre_init, sess, nown=1, seed=0, early=0):
             break
     adv.settle()
     world.query(victim)
+    if other is not None:
+        world.emit('Bystander', victim, i=other.conclude())
     return world.finish({'kind': 'adv', 'real': [victim], 'quiesced': True, 'cooperative': True})
 
 
